@@ -227,12 +227,11 @@ def run(ctx):
                 if isinstance(n, ast.Subscript) and isinstance(n.slice, ast.Slice) and n.slice.step is not None:
                     bad = "slice with step"
             r3.check(bad is None, f"{fi.fq}:for … in {txt[:50]}", "plain forward iteration over the list", fi.loc(it), why_fail=f"uses {bad}")
+    # instance nesting, order and jr:template copies: the instance builders are evaluated (abstractly: elements are
+    # attribute bags, nodes are recorded, nothing of pyxform runs) on every chain of up to three nested groups/repeats
+    # around a question, each with a sibling question before and after, and compared with the documented shape
     si = ctx.func("pyxform.section:Section.xml_instance", "C04.R3")
-    ib = [c for c in walk_own(si.node) if isinstance(c, ast.Call) and call_name(c) == "insertBefore"]
-    r3.check(len(ib) == 1 and len(ib[0].args) == 2 and norm(ib[0].args[1]) == "result._get_lastChild()" and norm(ib[0].args[0]) == "repeating_template",
-             "Section.xml_instance:template", "the jr:template copy is inserted immediately before the repeat's own node", si.loc())
-    ac = [c for c in walk_own(si.node) if isinstance(c, ast.Call) and call_name(c) == "appendChild"]
-    r3.check(len(ac) >= 2 and all(norm(c.func.value) == "result" for c in ac), "Section.xml_instance:append", "children nodes are appended (never inserted at another position)", si.loc())
+    _template_shapes(ctx, r3, si)
     bs = ctx.func("pyxform.builder:SurveyElementBuilder._create_section_from_dict", "C04.R3")
     r3.check(any(isinstance(c, ast.Call) and call_name(c) == "add_children" for c in walk_own(bs.node)), "builder:add_children", "built children are added in iteration order", bs.loc())
     rules.append(r3)
@@ -364,6 +363,96 @@ def run(ctx):
              and ctx.consts.get("pyxform.constants", "FIELD_LIST") == "field-list", "table-list:constants", "appearance keywords are spelled as documented", "pyxform/constants.py")
     rules.append(r6)
     return rules
+
+
+def _template_shapes(ctx, r3, si):
+    import itertools
+
+    from ..interp import NodeVal, Obj
+    from ..xmlmodel import node_hook
+    from .c07 import _mk
+    repo = ctx.repo
+    qcls = repo.cls("pyxform.question:InputQuestion")
+    gcls = repo.cls("pyxform.section:GroupedSection")
+    rcls = repo.cls("pyxform.section:RepeatingSection")
+    scls = repo.cls("pyxform.survey:Survey")
+    hooks = {"fnname:node": node_hook, "fnname:insert_xpaths": lambda i, a, k, n: (a[1] if len(a) > 1 and isinstance(a[0], Obj) and a[0].name == "survey" else a[0])}
+
+    def build(chain):
+        """data[ a0, K1[ a1, K2[ a2, ..., q ], z1 ], z0 ]"""
+        def q(name):
+            return _mk(ctx, qcls, name, type="text", bind={"type": "string"})
+        inner = [q("leaf")]
+        repeats = []
+        for depth in range(len(chain), 0, -1):
+            kind = chain[depth - 1]
+            name = f"{kind}{depth}"
+            sec = _mk(ctx, rcls if kind == "r" else gcls, name, type="repeat" if kind == "r" else "group", children=[q(f"a{depth}"), *inner, q(f"z{depth}")])
+            if kind == "r":
+                repeats.append(name)
+            inner = [sec]
+        data = _mk(ctx, scls, "data", type="survey", children=[q("a0"), *inner, q("z0")])
+        def link(p):
+            for ch in p.attrs.get("children") or []:
+                ch.attrs["parent"] = p
+                link(ch)
+        link(data)
+        return data, repeats
+
+    def is_tmpl(n):
+        return "jr:template" in n.attrs
+
+    def names(n):
+        return [c.tag for c in n.children if isinstance(c, NodeVal)]
+
+    for depth in (1, 2, 3):
+        for chain in itertools.product("gr", repeat=depth):
+            data, repeats = build(chain)
+            it = ctx.interp("C04.R3", hooks=hooks)
+            it.reset([])
+            desc = "data>" + ">".join(chain) + ">q"
+            try:
+                root = it.call_function(si, [data], {"survey": Obj(None, {}, name="survey")}, None, si.node)
+            except Raised as e:
+                r3.fail(f"instance[{desc}]", f"instance builder evaluates ({e.exc_name}{e.exc_args})", si.loc())
+                continue
+            problems = []
+            seen_tmpl = {r: 0 for r in repeats}
+            def walk(n, path, in_tmpl, rep_anc):
+                kids = [c for c in n.children if isinstance(c, NodeVal)]
+                plain = [c.tag for c in kids if not is_tmpl(c)]
+                # order and completeness of the plain children (sheet order, no duplicates)
+                want = None
+                if n.tag == "data":
+                    want = ["a0", f"{chain[0]}1", "z0"]
+                elif n.tag[0] in "gr" and n.tag[1:].isdigit():
+                    d = int(n.tag[1:])
+                    mid = f"{chain[d]}{d + 1}" if d < len(chain) else "leaf"
+                    want = [f"a{d}", mid, f"z{d}"]
+                if want is not None:
+                    got = plain if not in_tmpl else [c.tag for c in kids if not is_tmpl(c) or True]
+                    got_names = [c.tag for c in kids]
+                    dedup = [t for i, t in enumerate(got_names) if i == 0 or got_names[i - 1] != t]
+                    if dedup != want:
+                        problems.append(f"{path}: children {got_names} != sheet order {want}")
+                for i, c in enumerate(kids):
+                    if is_tmpl(c):
+                        if c.tag in seen_tmpl:
+                            seen_tmpl[c.tag] += 1
+                    elif c.tag in seen_tmpl and not in_tmpl and not rep_anc:
+                        # an outermost repeat: its template is the sibling immediately before it
+                        if i == 0 or kids[i - 1].tag != c.tag or not is_tmpl(kids[i - 1]):
+                            problems.append(f"{path}/{c.tag}: no jr:template sibling immediately before the outermost repeat")
+                    walk(c, f"{path}/{c.tag}", in_tmpl or is_tmpl(c), rep_anc or (c.tag in seen_tmpl and not is_tmpl(c)))
+            if isinstance(root, NodeVal):
+                walk(root, "data", False, False)
+                for r, n in seen_tmpl.items():
+                    if n < 1:
+                        problems.append(f"repeat {r} has no jr:template copy anywhere in the primary instance")
+            else:
+                problems.append(f"builder returned {root!r}")
+            r3.check(not problems, f"instance[{desc}]", "rows nest in sheet order and every repeat has its jr:template copy (outermost: immediately before it)",
+                     si.loc(), why_fail="; ".join(problems[:3]))
 
 
 def _type_context(node, loop) -> str:
